@@ -235,6 +235,24 @@ func fqCorrupt(r *rand.Rand, recs []*fastq.Fastq, j int, kind string, crlf bool)
 	return fqJoin(ls, crlf), true
 }
 
+// fqAlignedFile: many ordinary reads, written by hand, one record's sequence line ending exactly at offset `aligned` of the file
+func fqAlignedFile(r *rand.Rand, aligned int) []byte {
+	var out []byte
+	add := func(name, seq int) {
+		out = append(append(append(out, '@'), fqBytes(r, name)...), '\n')
+		out = append(append(out, fqBytes(r, seq)...), "\n+\n"...)
+		out = append(append(out, fqBytes(r, seq)...), '\n')
+	}
+	for len(out) < aligned-900 {
+		add(5+r.Intn(20), 100+r.Intn(100))
+	}
+	add(aligned-len(out)-3-150, 150)
+	for i := 0; i < 6; i++ {
+		add(5+r.Intn(20), 100+r.Intn(100))
+	}
+	return out
+}
+
 func fastqDrive(args []string) error {
 	if err := need(args, 2, "fastq-drive <out.ndjson> <sessions> [only-sid]"); err != nil {
 		return err
@@ -263,7 +281,35 @@ func fastqDrive(args []string) error {
 		} else if thorough() && sid == len(fqLongLens)+1 {
 			long, nrec = 8<<20, 1
 		}
+		// two sessions: many ordinary reads, laid out so that one record's sequence line ends exactly at (one byte before) a large
+		// power-of-two offset of the file: 2^16 in every run, 2^20 in the thorough tier (buffers that are refilled mid-record)
+		aligned := 0
+		if sid == len(fqLongLens)+2 || sid == len(fqLongLens)+3 {
+			aligned = 1 << 16
+			if thorough() {
+				aligned = 1 << 20
+			}
+			aligned -= sid - (len(fqLongLens) + 2)
+			nrec = 0
+		}
 		var recs []*fastq.Fastq
+		if aligned > 0 {
+			cur := 0
+			add := func(name, seq int) {
+				f := &fastq.Fastq{Name: fqBytes(r, name), Sequence: fqBytes(r, seq), Quals: fqBytes(r, seq)}
+				recs = append(recs, f)
+				cur += 1 + name + 1 + seq + 1 + 2 + seq + 1
+			}
+			for cur < aligned-900 {
+				add(5+r.Intn(20), 100+r.Intn(100))
+			}
+			// '@' name LF seq LF: the LF of the sequence line is byte number `aligned` of the file
+			seq := 150
+			add(aligned-cur-3-seq, seq)
+			for i := 0; i < 6; i++ {
+				add(5+r.Intn(20), 100+r.Intn(100))
+			}
+		}
 		for i := 0; i < nrec; i++ {
 			n := []int{0, 1, 2, 3, 50, 100, 150, 151, 250}[r.Intn(9)]
 			if r.Intn(3) == 0 {
@@ -364,8 +410,16 @@ func fastqDrive(args []string) error {
 		if sid%5 == 3 {
 			fqPairedWith = []byte("@mate/2\nTTTTGGGGCCCCAAAA\n+\nIIIIHHHHGGGGFFFF\n@m2/2\nAC\n+\n!!\n@m3/2\n\n+\n\n")
 		}
+		if aligned > 0 { // (the whole file is read at once: a large buffer is refilled in the middle of a record)
+			readDelivery = 0
+		}
 		emitRead("own-writer", own, 0)
-		if long < 0 {
+		if aligned > 0 {
+			// (hundreds of records: no per-record corruptions here; one cut in the aligned record's neighbourhood)
+			if data, ok := fqCorrupt(r, recs, len(recs)-3, "cut3", false); ok {
+				emitRead("cut3", data, len(recs)-3)
+			}
+		} else if long < 0 {
 			emitRead("crlf", fqJoin(fqLines(recs), true), 0)
 			for j := 1; j <= len(recs); j++ {
 				for _, kind := range fqKinds {
